@@ -67,6 +67,8 @@ def profile(h=0):
 
 def _cfg_variant(cfg, h):
     """Every third CSV history runs with flush_on_insert=False (reads go through the same buffered handle)."""
+    if cfg["storage"] == "csv" and h % 11 == 5:
+        return dict(cfg, access_mode="w+")  # a database created with "w+" and then used for everything
     if cfg["storage"] == "csv" and h % 3 == 0:
         return dict(cfg, flush=False)
     if cfg["storage"] == "csv" and h % 7 == 4:
@@ -120,7 +122,11 @@ class NoMatchRunner(HistoryRunner):
         ok = HistoryRunner._write(self, s, op)
         if is_rm and ok and pre_model is not None and pre_model.digest() == s.model.digest():
             # the model says this removal matched nothing
-            if s.path:
+            if s.path and not s.cfg.get("flush", True) and self.no_handle_peeks:
+                # rows of earlier inserts may still sit in the handle's buffer: their reaching the file now is not a
+                # change made by the removal (the contents are compared by the state / read checks)
+                self.res.count("nomatch_bytes_not_compared_buffered_rows_pending")
+            elif s.path:
                 self.res.count("nomatch_bytes_checked")
                 post = s.file_bytes()
                 if post != pre_bytes:
